@@ -27,6 +27,7 @@ static unsigned char conv_copy[VF_M + 1];   /* harness-side copy: the library fr
 static unsigned conv_len;
 static bool conv_stored;
 
+#ifndef HAVE_IDNKIT
 static int converter(const char *input, char **output)
 {
     conv_calls++;
@@ -51,12 +52,43 @@ static int converter(const char *input, char **output)
     }
     return conv_rc;
 }
+#endif
 
-#if defined(HAVE_LIBIDN2)
+#if defined(HAVE_IDNKIT)
+#include <idn/api.h>
+static struct vf_idn_resconf the_ctx = { 1, 1 };
+static bool conv_bad_args;
+idn_result_t idn_res_encodename(idn_resconf_t ctx, idn_action_t actions, const char *from, char *to, size_t tolen)
+{
+    conv_calls++;
+    conv_input = from;
+    /* room for any valid host name: 253 characters + root dot + terminator */
+    if (ctx != &the_ctx || actions != IDN_ENCODE_REGIST || tolen < 255) conv_bad_args = true;
+    to[tolen - 1] = 0;                   /* the announced size must really be there (bounds-checked) */
+    conv_rc = nondet_int();
+    if (conv_rc == idn_success) {
+        conv_len = nondet_uint();
+        VF_ASSUME(conv_len <= VF_M);
+        conv_out = (unsigned char *) to;
+        for (unsigned i = 0; i < VF_M; i++) {
+            unsigned char c = nondet_uchar();
+            conv_out[i] = (i < conv_len) ? (unsigned char) (c | (c == 0)) : 0;
+            conv_copy[i] = conv_out[i];
+        }
+        conv_out[VF_M] = 0;
+        conv_stored = true;
+        ls_base = to;
+        ls_buflen = conv_len;
+    }
+    return conv_rc;
+}
+#define OKCODE 0
+#elif defined(HAVE_LIBIDN2)
 int idn2_to_ascii_8z(const char *input, char **output, int flags) { (void) flags; return converter(input, output); }
 int idn2_lookup_ul(const char *input, char **output, int flags) { (void) flags; return converter(input, output); }
 #define OKCODE 0
 #elif defined(HAVE_LIBIDN)
+#include <idna.h>
 int idna_to_ascii_lz(const char *input, char **output, int flags) { (void) flags; return converter(input, output); }
 #define OKCODE 0
 #endif
@@ -75,7 +107,12 @@ void harness(void)
     int r = nondet_int();                 /* caller's idn_rc cell, arbitrary before the call */
     int r0 = r;
 
+#ifdef HAVE_IDNKIT
+    int rc = is_utf8_domain(&the_ctx, IDN_ENCODE_REGIST, &r, (const char *) in, (const char *) in + n, tld_check);
+    VF_ASSERT(!conv_bad_args, "C18: the converter is given the caller's context and actions and a buffer with room for the terminator");
+#else
     int rc = is_utf8_domain(&r, (const char *) in, (const char *) in + n, tld_check);
+#endif
 
     if (n == 0) {
         VF_ASSERT(rc == -EEAV_DOMAIN_EMPTY && conv_calls == 0 && ls_n == 0, "empty domain: DOMAIN_EMPTY, nothing consulted");
@@ -87,7 +124,9 @@ void harness(void)
         if (conv_rc != OKCODE) {
             VF_ASSERT(rc == -EEAV_IDN_ERROR, "C19: any IDN failure is rejected with EEAV_IDN_ERROR");
             VF_ASSERT(ls_n == 0, "C19: after an IDN failure nothing is treated as a domain (no validator consulted)");
+#ifndef HAVE_IDNKIT
             VF_COVER(conv_stored, "fault-with-buffer");
+#endif
             VF_COVER(!conv_stored, "fault-without-buffer");
         } else {
             VF_ASSERT(ls_count[F_ADOM] == 1 && ls_find(F_ADOM, 0, conv_len) != 0,
